@@ -1327,7 +1327,16 @@ class Ser:
         lines: List[str] = []
         if self.fmt == "plaintext":
             # any text: chunks with arbitrary characters, kept exactly
-            for n, b in enumerate(doc["body"]):
+            flat: List[Any] = []
+            def _flatten(bs):
+                for b in bs:
+                    if b[0] == "section":       # plain text has no sections: the title is a line of text, the content follows
+                        flat.append(("para", b[1]))
+                        _flatten(b[2])
+                    else:
+                        flat.append(b)
+            _flatten(doc["body"])
+            for n, b in enumerate(flat):
                 w: List[str] = []
                 if b[0] == "para":
                     lines.extend(self.wrap(b[1], "", "  " if n % 3 == 0 else "", w, width=40))
@@ -1565,7 +1574,8 @@ def oracle_document(ctx: Ctx, fmt: str, doc, ser, full: str, src: str, r) -> Non
         i = next((k for k, (a, b) in enumerate(zip(shown_words, out.words)) if a != b), min(len(shown_words), len(out.words)))
         kind = "lost" if len(shown_words) < len(out.words) else ("added" if len(shown_words) > len(out.words) else "altered")
         sig = f"description:words-{kind}:{fmt}"
-        if fmt == "restructuredtext" and i == 0 and doc["body"][0][0] == "section" and kind == "lost":
+        if fmt == "restructuredtext" and doc["body"][0][0] == "section" and kind == "lost" and \
+                any(out.words[n:] == shown_words for n in range(1, 8)):
             sig = "rst:lone-section-title-dropped"      # the docstring starts with a section title: docutils makes it the document title
         ctx.fail(sig, {**inp, "at": i, "shown": shown_words[max(0, i - 3):i + 4], "intended": out.words[max(0, i - 3):i + 4]},
                  f"{fmt}: description words differ at word {i}: shown {shown_words[max(0, i - 2):i + 3]} intended {out.words[max(0, i - 2):i + 3]}")
